@@ -379,7 +379,7 @@ func genDex() (string, error) {
 		{"lib/dex.go", "DexBatch", "Copy", false},
 		{"lib/dex.go", "DexBatch", "IsEmpty", false},
 		{"lib/dex.go", "DexBatch", "CopyOrders", false},
-		{"lib/dex.go", "DexLimitOrderWithKey", "HashKey", false},
+		{"lib/dex.go", "DexLimitOrderWithKey", "HashKey", true},
 	} {
 		f := files[s.path]
 		if f == nil {
